@@ -72,6 +72,9 @@ type PatInfo struct {
 	HasSfx bool      `json:"has_sfx"`
 	Sfx    *ReAST    `json:"sfx,omitempty"` // Parse(escape(suffix expression))
 	OrV    []string  `json:"orv"`           // getOrValues(escape(suffix expression))
+	AOV    []string  `json:"aov"`           // anchoredOrValues(pat): today's exact-value lookups for ^X$
+	ALP    string    `json:"alp"`           // anchoredLiteralPrefix(pat)
+	All    bool      `json:"all"`           // regexMatchesEverything(pat)
 	Rows   []AtomRow `json:"rows"`
 }
 
@@ -86,7 +89,10 @@ func filterValueText(p string) string {
 }
 
 func stagesOf(p string) *PatInfo {
-	pi := &PatInfo{Pat: p, AST: parseAST(p), VText: filterValueText(p), OrV: []string{}}
+	pi := &PatInfo{Pat: p, AST: parseAST(p), VText: filterValueText(p), OrV: []string{}, AOV: []string{}}
+	pi.AOV = append(pi.AOV, tsi.VerifC10AnchoredOrValues(p)...)
+	pi.ALP = string(tsi.VerifC10AnchoredLiteralPrefix(p))
+	pi.All = tsi.VerifC10RegexMatchesEverything(p)
 	sre, err := syntax.Parse(p, syntax.Perl)
 	if err != nil {
 		return pi
@@ -251,6 +257,9 @@ func probeValues(p string) []string {
 
 type RegexMatrix struct {
 	Kind string     `json:"kind"` // "regex"
+	// constants of the translation read from the package: maxOrValues and the three bytes marshalTagValue escapes
+	MaxOrValues int    `json:"max_or_values"`
+	Escape      [3]int `json:"escape"`
 	Perl bool       `json:"perl"`
 	Pats []*PatInfo `json:"pats"`
 	Fail []Fail     `json:"oracle"`
@@ -260,7 +269,8 @@ func regexMatrix(dir string, patterns []string) *RegexMatrix {
 	seq := uint64(1000)
 	e := &env{dir: dir, clock: 1, seq: &seq}
 	e.open()
-	out := &RegexMatrix{Kind: "regex", Perl: perlMode, Fail: []Fail{}}
+	out := &RegexMatrix{Kind: "regex", Perl: perlMode, Fail: []Fail{}, MaxOrValues: tsi.VerifC10MaxOrValues,
+		Escape: [3]int{int(tsi.VerifC10EscapeBytes[0]), int(tsi.VerifC10EscapeBytes[1]), int(tsi.VerifC10EscapeBytes[2])}}
 	probes := map[string][]string{}
 	all := map[string]bool{}
 	for _, v := range vals {
